@@ -38,7 +38,7 @@ func waitFor(d time.Duration, cond func() bool) bool {
 
 func main() {
 	hlib.Guarded(func(run *hlib.Run) {
-		run.Rule = "fault table: scenario {join into a populated ring, leave of a populated node} x membership RPC {RequestToJoin|RequestToLeave, Import, Finish*(stabilize), Finish*(release)} x mode {fail before delivery, lose the response after delivery} x control (no fault), on rings of 3..5 real LocalNodes with millisecond timers and 10 acknowledged keys; non-trivial = distinct (tuple, ring) in which the faulted call was actually reached"
+		run.Rule = "fault table: scenario {join into a populated ring, leave of a populated node} x membership RPC {RequestToJoin|RequestToLeave, Import, Finish*(stabilize), Finish*(release)} x mode {fail before delivery, lose the response after delivery} x control (no fault), on rings of 3..5 real LocalNodes with millisecond timers and 10 acknowledged keys; plus scenario {leave of the highest-id member, leave of another member} whose RequestToLeave is refused (1..n times) by a successor holding the membership lock for a join held in flight directly behind the leaver (joiner next to the leaver / next to the successor / anywhere in the gap, possibly wrapping to the lowest id), the join concluding before the retry, on rings of 2..5 nodes with 28 acknowledged keys of which the leaver owns at least one; non-trivial = distinct (tuple, ring) in which the faulted call was actually reached"
 		rng := hlib.NewRng(run.Seed)
 		var tuples []tuple
 		for _, sc := range []string{"join", "leave"} {
@@ -53,6 +53,11 @@ func main() {
 				}
 			}
 		}
+		// second family (window.go): the leave's RequestToLeave is refused because the successor holds the
+		// membership lock for a join in flight behind the leaver; the join concludes before the retry
+		for _, sc := range []string{scLeaveHi, scLeaveLo, scLeaveHi, scLeaveHi, scLeaveLo, scLeaveHi} {
+			tuples = append(tuples, tuple{sc, "RequestToLeave", "refused"})
+		}
 		reps := 1
 		if run.Thorough() {
 			reps = 6
@@ -61,13 +66,21 @@ func main() {
 			tuples = nil
 			for _, t := range run.ReplayLines() {
 				if t[0] == "fault" {
-					tuples = append(tuples, tuple{t[1], t[2], t[3]})
+					tp := tuple{t[1], t[2], t[3]}
+					tuples = append(tuples, tp)
+					if isWindowScenario(tp.scenario) { // timing-dependent: a few fresh runs of the same kind
+						tuples = append(tuples, tp, tp, tp)
+					}
 				}
 			}
 			reps = 1
 		}
 		for rep := 0; rep < reps; rep++ {
 			for _, tp := range tuples {
+				if isWindowScenario(tp.scenario) {
+					windowCase(run, rng, tp.scenario)
+					continue
+				}
 				oneCase(run, rng, tp)
 			}
 		}
